@@ -336,4 +336,16 @@ theorem C05_piece_plain (lookup : Bytes → Option Bytes) (n : Nat) (chunk : Byt
     (hl : lookup chunk = none) (h96 : 96 ∉ chunk) (h92 : 92 ∉ chunk) : substPiece lookup n chunk = chunk :=
   substPiece_plain lookup n chunk hl h96 h92
 
+
+/-- **a one-line comment in macro text does not become part of the substituted text** (IEEE 1800-2017 22.5.1), its line end is kept, and the
+    piece before the comment ends where the comment begins (repair D19) -/
+theorem C05_line_comment_not_substituted (pre cm post : List Nat)
+    (hp0 : ∀ c, pre.head? = some c → (c != 92 && !isAsciiWhitespace c) = true) (hpne : pre ≠ [])
+    (hp34 : 34 ∉ pre) (hp47 : 47 ∉ pre) (hc10 : 10 ∉ cm) (hq47 : 47 ∉ post) :
+    (splitText (pre ++ ([47, 47] ++ cm ++ [10]) ++ post)).flatten = pre ++ [10] ++ post :=
+  splitText_drops_line_comment pre cm post hp0 hpne hp34 hp47 hc10 hq47
+
+/-- non-vacuity: `a// n` + line end + `b` gives the pieces of `a`, line end, `b` -/
+example : (splitText [97, 47, 47, 32, 110, 10, 98]).flatten = [97, 10, 98] := by decide
+
 end Sv
